@@ -61,8 +61,8 @@ func validateRangeOptions(options []string) error {
 	return nil
 }
 
-func extractKeysWeightsAggregateWithScores(cmd []string) ([]string, []int, string, bool, error) {
-	var weights []int
+func extractKeysWeightsAggregateWithScores(cmd []string) ([]string, []float64, string, bool, error) {
+	var weights []float64
 	weightsIndex := slices.IndexFunc(cmd, func(s string) bool {
 		return strings.EqualFold(s, "weights")
 	})
@@ -71,9 +71,9 @@ func extractKeysWeightsAggregateWithScores(cmd []string) ([]string, []int, strin
 			if slices.Contains([]string{"aggregate", "withscores"}, strings.ToLower(cmd[i])) {
 				break
 			}
-			w, err := strconv.Atoi(cmd[i])
-			if err != nil {
-				return []string{}, []int{}, "", false, err
+			w, err := strconv.ParseFloat(cmd[i], 64)
+			if err != nil || math.IsNaN(w) {
+				return []string{}, []float64{}, "", false, errors.New("weight must be a double")
 			}
 			weights = append(weights, w)
 		}
@@ -85,7 +85,7 @@ func extractKeysWeightsAggregateWithScores(cmd []string) ([]string, []int, strin
 	})
 	if aggregateIndex != -1 {
 		if !slices.Contains([]string{"sum", "min", "max"}, strings.ToLower(cmd[aggregateIndex+1])) {
-			return []string{}, []int{}, "", false, errors.New("aggregate must be SUM, MIN, or MAX")
+			return []string{}, []float64{}, "", false, errors.New("aggregate must be SUM, MIN, or MAX")
 		}
 		aggregate = strings.ToLower(cmd[aggregateIndex+1])
 	}
@@ -121,7 +121,7 @@ func extractKeysWeightsAggregateWithScores(cmd []string) ([]string, []int, strin
 	}
 
 	if weightsIndex != -1 && (len(keys) != len(weights)) {
-		return []string{}, []int{}, "", false, errors.New("number of weights should match number of keys")
+		return []string{}, []float64{}, "", false, errors.New("number of weights should match number of keys")
 	} else if weightsIndex == -1 {
 		for i := 0; i < len(keys); i++ {
 			weights = append(weights, 1)
